@@ -8,7 +8,7 @@ same file) is compared with the model; a disagreement is diagnosed by interventi
 (drop operations, retarget the read, drop spelling / stored-form features, move to the other
 namespace class) so that the signature names the mechanism.
 
-Workload: bounded-exhaustive histories over a 29-symbol concrete alphabet (length <=3 quick,
+Workload: bounded-exhaustive histories over a 31-symbol concrete alphabet (length <=3 quick,
 <=4 thorough) + random histories (length 1..40) over {0, Template, Module, Template talk,
 Wiktionary} x 4 base names x spelling variants.
 """
@@ -29,7 +29,7 @@ RULE = ("case = one operation history over {add (canonical / prefix omitted / st
         "get_page_body, get_page_resolve_redirect (each also with namespace_id=None on the full title under every spelling of "
         "the prefix), expand('{{T}}'), get_page(full title, None), commit, reopen (close + "
         "Wtp(db_path)), peek (second Wtp on the same file)} with unique bodies '(vN)'; every history ends with a read sweep "
-        "over the keys it wrote. Part E: ALL histories of length 1..L (L=3 quick, 4 thorough) over a 29-symbol concrete "
+        "over the keys it wrote. Part E: ALL histories of length 1..L (L=3 quick, 4 thorough) over a 31-symbol concrete "
         "alphabet; part R: seeded random histories of length 1..40 over 5 namespaces x base names built from a first letter (derived from the Unicode case tables: 7 ASCII incl. "
         "M/a/i/n, 12 whose upper case sorts before and 19 whose upper case sorts after the lower case) and 6 tails, stored in "
         "the upper-cased form, the lower-case form or both; main-namespace pages also added / read / redirected to as "
@@ -37,18 +37,20 @@ RULE = ("case = one operation history over {add (canonical / prefix omitted / st
         "(prefix canonical/omitted/lower/upper/mixed/alias/key, lower-case first letter, '_' for blanks, case-mangled second "
         "letter). distinct = distinct operation sequence; non-trivial = contains a read of a key after a write of that key")
 ASSUMPTIONS = [
-    "titles are added only under the canonical prefix ('Main:' for the main namespace) or with the prefix omitted (the statement says nothing about adding under an alias)",
+    "titles are added under every spelling of the prefix (canonical, omitted, alias, other case; 'Main:' for the main namespace); "
+    "the returned title may be the canonical full title or the title as passed",
     "'main:' in another case: result not compared (the statement makes the prefix case-insensitive, the pinned code only knows 'Main:'); existence == lookup still is",
-    "redirect targets stay in the redirect's namespace; when the target is itself a redirect only the body (None) is compared; "
+    "a redirect target carrying the prefix of another (non-main) namespace names a page of that namespace; a target without "
+    "prefix is looked up in the redirect's namespace; 'Main:' targets of non-main redirects are not compared; "
+    "when the target is itself a redirect only the body (None) is compared; "
     "a lower-case redirect target that is a redirect while its upper-cased twin is a page is not compared",
     "expand('{{X}}') is used as a read only in spellings where the expander's own namespace inference is unambiguous "
     "(Template: any spelling; main: '{{:X}}'; other namespaces: canonical key prefix)",
     "a second context on the same file is compared only for keys whose latest version was committed (uncommitted content is unspecified)",
     "histories share one database per ~25 histories; each history uses titles with a private numeric suffix, so histories cannot interact",
-    "namespace_id=None: results are compared only where the statement and a literal full-title match coincide (canonical "
-    "prefix, '_' or blanks, exact case of the name; no prefix = main namespace); for aliased / other-case prefixes, a "
-    "lower-case first letter outside main, and prefix-less redirect targets only 'page_exists == (get_page is not None)' "
-    "with the same arguments is asserted",
+    "namespace_id=None: the prefix of the full title (given, aliased, any case) selects the namespace and that namespace's "
+    "rules apply to the rest; no prefix = main namespace; for prefix-less redirect targets of a non-main redirect only "
+    "'page_exists == (get_page is not None)' with the same arguments is asserted",
     "intervention used for diagnosis only: Wtp.get_page.cache_clear() when that attribute exists",
 ]
 WALL = {"quick": 600, "thorough": 3000}
@@ -80,6 +82,9 @@ def stems(rng, k):
         c = rng.choice(LETTERS)
         t = rng.choice(TAILS)
         r = rng.random()
+        if rng.random() < 0.1:
+            out.append("Main:" + c.upper() + t)      # a title whose own text starts with 'Main:'
+            continue
         if r < 0.5:
             out += [c.upper() + t, c + t]
         elif r < 0.85:
@@ -112,7 +117,9 @@ def floors(tier):
             "counters.op.commit": 50, "counters.hist.exhaustive": 1000, "counters.hist.random": 500,
             "counters.memo_hits": 1, "oracle.exists-agrees-with-lookup.ns-None": 300, "counters.read_ns_none_compared": 1000,
             "counters.read_ns_none.get": 200, "counters.read_ns_none.exists": 200, "counters.read_ns_none.body": 200,
-            "counters.read_ns_none.resolve": 200, "counters.add_via_Main_prefix": 500, "counters.read_via_Main_prefix": 500,
+            "counters.read_ns_none.resolve": 200, "counters.add_via_alias_or_other_case_prefix": 300,
+            "counters.redirect_to_other_namespace": 300, "counters.read_ns_none_prefix_or_first_letter_not_canonical": 1000,
+            "counters.add_title_starting_with_Main_outside_main": 30, "counters.read_title_starting_with_Main_outside_main": 60, "counters.add_via_Main_prefix": 500, "counters.read_via_Main_prefix": 500,
             "counters.write_with_case_twin_stored": 500, "counters.read_with_case_twin_stored": 1000,
             "counters.read_with_case_twin_stored.upper_sorts_after_lower": 200, "sets.first_letters": 30, "sets.spellings": 40, "sets.namespaces": 5,
             "anchors.Wtp.get_page": 10000, "anchors.Wtp.add_page": 5000, "anchors.Wtp.page_exists": 1000,
@@ -191,11 +198,12 @@ def add_title(op, sfx):
         name = name.replace(" ", "_")
     if not op["ns"]:
         return ("Main:" if op.get("pf") == "main" else "") + name
-    return (prefix_of(op["ns"], "canon") if op.get("pf", "canon") == "canon" else "") + name
+    pf = op.get("pf", "canon")
+    return ("" if pf == "bare" else prefix_of(op["ns"], pf)) + name
 
 
 def target_title(op, sfx):
-    ns = op["ns"]
+    ns = op.get("tns", op["ns"])        # tns: the target lives in another (non-main) namespace
     name = op["tb"] + sfx
     tf = op.get("tf", "canon")
     if tf == "bare":
@@ -237,7 +245,7 @@ def sp_tag(op):
     sp = op.get("sp", {})
     tags = []
     if op.get("ns") and sp.get("pf", "canon") != "canon":
-        tags.append("prefix-" + sp["pf"])
+        tags.append("prefix-not-canonical" if op.get("nn") else "prefix-" + sp["pf"])
     if not op.get("ns") and sp.get("pf") in ("main", "mainlc"):
         tags.append("prefix-Main" if sp["pf"] == "main" else "prefix-main-lower-case")
     for k, name in (("lc", "lcfirst"), ("us", "underscore"), ("cm", "case-mangled")):
@@ -368,6 +376,11 @@ def execute(store, ops, sfx, nomemo=False, diagnose=False, obs=None, stats=None)
             if stats is not None:
                 if op.get("pf") == "main":
                     stats["add_via_Main_prefix"] = stats.get("add_via_Main_prefix", 0) + 1
+                if op["ns"] and op.get("pf", "canon") not in ("canon", "bare"):
+                    stats["add_via_alias_or_other_case_prefix"] = stats.get("add_via_alias_or_other_case_prefix", 0) + 1
+                if op["ns"] and op["b"].startswith("Main:"):
+                    stats["add_title_starting_with_Main_outside_main"] = \
+                        stats.get("add_title_starting_with_Main_outside_main", 0) + 1
                 if twins(m.store, op["ns"], op["b"] + sfx):
                     stats["write_with_case_twin_stored"] = stats.get("write_with_case_twin_stored", 0) + 1
         elif o == "redir":
@@ -378,6 +391,8 @@ def execute(store, ops, sfx, nomemo=False, diagnose=False, obs=None, stats=None)
             ctx.add_page(title, op["ns"], body, redirect_to=tgt, model=op.get("model", "wikitext"))
             m.add(op["ns"], title, body, tgt, op.get("model", "wikitext"))
             written.add((op["ns"], op["b"]))
+            if stats is not None and "tns" in op:
+                stats["redirect_to_other_namespace"] = stats.get("redirect_to_other_namespace", 0) + 1
         elif o == "commit":
             ctx.db_conn.commit()
             m.commit()
@@ -397,6 +412,8 @@ def execute(store, ops, sfx, nomemo=False, diagnose=False, obs=None, stats=None)
                         continue
                     ns, name = key
                     t = (NS[ns][0] + ":" if ns else "") + name
+                    if not ns and name.startswith("Main:"):
+                        t = "Main:" + t       # a main-namespace title whose own text starts with 'Main:'
                     got = page_tuple(c2.get_page(t, ns))
                     if obs is not None:
                         obs.check("peek-key")
@@ -413,8 +430,8 @@ def execute(store, ops, sfx, nomemo=False, diagnose=False, obs=None, stats=None)
             ns = None if (o == "getfull" or op.get("nn")) else op["ns"]
             mns = None if op.get("nn") else op["ns"]     # namespace id as passed (getfull: the model maps it)
             exp = Model.expected(m.store, o, mns, t)
-            if o == "expand" and op["ns"] == 4 and op.get("sp", {}).get("pf", "canon") == "canon":
-                exp = SKIP
+            if o == "expand" and ((op["ns"] == 4 and op.get("sp", {}).get("pf", "canon") == "canon") or ":" in op["b"]):
+                exp = SKIP      # '{{Main:X}}' etc.: the expander's own reading of the colon, outside this property
             try:
                 got = real_read(ctx, op, sfx)
             except CpuBudget as e:
@@ -449,6 +466,12 @@ def execute(store, ops, sfx, nomemo=False, diagnose=False, obs=None, stats=None)
                             stats.get("read_with_case_twin_stored.upper_sorts_after_lower", 0) + 1
                 if op.get("sp", {}).get("pf") in ("main", "mainlc"):
                     stats["read_via_Main_prefix"] = stats.get("read_via_Main_prefix", 0) + 1
+                if op.get("nn") and op["ns"] and (spn(op)[0] != "canon" or spn(op)[1]):
+                    stats["read_ns_none_prefix_or_first_letter_not_canonical"] = \
+                        stats.get("read_ns_none_prefix_or_first_letter_not_canonical", 0) + 1
+                if op["ns"] and op["b"].startswith("Main:"):
+                    stats["read_title_starting_with_Main_outside_main"] = \
+                        stats.get("read_title_starting_with_Main_outside_main", 0) + 1
                 if op.get("nn"):
                     stats["read_ns_none." + o] = stats.get("read_ns_none." + o, 0) + 1
                     if exp is not SKIP:
@@ -567,8 +590,8 @@ def shrink(ops, fails):
         while grew:
             grew = False
             for o in ops:
-                if o["o"] == "redir" and (o["ns"], o["b"]) in keys and (o["ns"], o["tb"]) not in keys:
-                    keys.add((o["ns"], o["tb"]))
+                if o["o"] == "redir" and (o["ns"], o["b"]) in keys and (o.get("tns", o["ns"]), o["tb"]) not in keys:
+                    keys.add((o.get("tns", o["ns"]), o["tb"]))
                     grew = True
         if last["o"] == "getfull" or last["o"] == "expand" or last.get("nn"):
             keys |= {(n, b) for (n, b) in keys_of(ops) if b == last["b"]}
@@ -583,8 +606,8 @@ def keys_of(ops):
     for o in ops:
         if "b" in o and (o["ns"], o["b"]) not in ks:
             ks.append((o["ns"], o["b"]))
-        if "tb" in o and (o["ns"], o["tb"]) not in ks:
-            ks.append((o["ns"], o["tb"]))
+        if "tb" in o and (o.get("tns", o["ns"]), o["tb"]) not in ks:
+            ks.append((o.get("tns", o["ns"]), o["tb"]))
     return ks
 
 
@@ -659,7 +682,16 @@ def diagnose(lab, executed, mm):
     b2 = strip_dx(base)
     if fails(b2):
         base = b2
+    b2 = [dict(o, o="get", nn=1) if o["o"] == "getfull" else o for o in base]     # the same call, one notation
+    if b2 != base and fails(b2):
+        base = b2
     w = shrink(base, fails)
+    # a title whose own text starts with 'Main:' -> the plain title, if that does not matter
+    if any(o.get("b", "").startswith("Main:") or o.get("tb", "").startswith("Main:") for o in w):
+        unmain = lambda x: x[5:] if x.startswith("Main:") else x
+        cand = [dict(o, b=unmain(o["b"]), **({"tb": unmain(o["tb"])} if "tb" in o else {})) if "b" in o else o for o in w]
+        if fails(cand):
+            w = shrink(cand, fails)
     # retarget: the simplest read that still fails (plain get_page, canonical spelling, of a key in play)
     for _round in range(2):
         done = False
@@ -699,15 +731,19 @@ def diagnose(lab, executed, mm):
             return ch
 
         # the same concrete title expressed relative to a written base name ('qux' = lcfirst of 'Qux')
-        last = w[-1]
-        if "sp" in last and not last["sp"].get("cm"):
-            conc = last["b"][:1].lower() + last["b"][1:] if last["sp"].get("lc") else last["b"]
-            wr = [o for o in w[:-1] if o["o"] in ("add", "redir") and o["ns"] == last["ns"]]
-            cands = [(o["b"], False) for o in wr if o["b"] == conc] + \
-                    [(o["b"], True) for o in wr if o["b"] != conc and o["b"][:1].lower() + o["b"][1:] == conc]
-            if cands:       # the exact spelling of a written title first, else its lower-cased first letter
-                nb, nlc = cands[0]
-                w = attempt(w, lambda r, nb=nb, nlc=nlc: dict(r, b=nb, sp=dict(r["sp"], lc=nlc)))
+        def rebase(w):
+            last = w[-1]
+            if "sp" in last and not last["sp"].get("cm"):
+                conc = last["b"][:1].lower() + last["b"][1:] if last["sp"].get("lc") else last["b"]
+                wr = [o for o in w[:-1] if o["o"] in ("add", "redir") and o["ns"] == last["ns"]]
+                cands = [(o["b"], False) for o in wr if o["b"] == conc] + \
+                        [(o["b"], True) for o in wr if o["b"] != conc and conc[:1].upper() + conc[1:] == o["b"]]
+                if cands:       # the exact spelling of a written title first, else its lower-cased first letter
+                    nb, nlc = cands[0]
+                    w = attempt(w, lambda r, nb=nb, nlc=nlc: dict(r, b=nb, sp=dict(r["sp"], lc=nlc)))
+            return w
+
+        w = rebase(w)
         for simpler in ("get", "body"):
             if w[-1]["o"] in ("get", "getfull", simpler):
                 break
@@ -720,6 +756,7 @@ def diagnose(lab, executed, mm):
                 w = attempt(w, lambda o, k=k, dv=dv: dict(o, sp=dict(o["sp"], **{k: dv})))
         if w[-1].get("nn"):
             w = attempt(w, lambda o: {k: v for k, v in o.items() if k != "nn"})
+        w = rebase(w)           # again: a dropped feature (case-mangling) may have stood in the way
         w = ddmin(w, fails)
     # stored-form features of the writes
     for j in range(len(w) - 1):
@@ -744,8 +781,10 @@ def diagnose(lab, executed, mm):
         if o["o"] in ("add", "redir"):
             if o.get("us"):
                 stored.add("underscore")
-            if o.get("pf", "canon") != "canon" and o["ns"]:
+            if o.get("pf", "canon") == "bare" and o["ns"]:
                 stored.add("prefix-omitted")
+            if o.get("pf", "canon") not in ("canon", "bare") and o["ns"]:
+                stored.add("prefix-not-canonical")      # alias / other case: one class
             if o.get("pf") == "main" and not o["ns"]:
                 stored.add("prefix-Main")
             if o.get("nb"):
@@ -756,8 +795,12 @@ def diagnose(lab, executed, mm):
                 stored.add("redirect-with-body")
             if o.get("tf", "canon") != "canon":
                 stored.add("target-" + o["tf"])
+            if "tns" in o:
+                stored.add("target-in-other-namespace")
+            if o["b"].startswith("Main:") and o["ns"]:
+                stored.add("title-starts-with-Main:")
     # namespace class
-    nss = {o["ns"] for o in w if "ns" in o}
+    nss = {o["ns"] for o in w if "ns" in o} | {o["tns"] for o in w if "tns" in o}
     nstag = "mixed"
     if len(nss) == 1:
         ns = nss.pop()
@@ -842,6 +885,8 @@ ALPHABET = [
     {"o": "add", "ns": 0, "b": "Foo bar", "pf": "canon"},
     {"o": "add", "ns": 10, "b": "foo bar", "pf": "canon"},       # the lower-case twin of K: both spellings stored
     {"o": "add", "ns": 0, "b": "Foo bar", "pf": "main"},         # main-namespace page added as 'Main:...'
+    {"o": "add", "ns": 10, "b": "Foo bar", "pf": "alias0"},      # added under the aliased prefix 'T:...'
+    {"o": "redir", "ns": 0, "b": "Foo bar", "pf": "canon", "tb": "Qux", "tf": "canon", "tns": 10},   # main -> Template:Qux
     _r("get", K),
     _r("get", K, pf="omit", lc=True, us=True),
     _r("get", K, pf="lower"),
@@ -852,11 +897,11 @@ ALPHABET = [
     _r("expand", K, pf="omit", lc=True, us=True),
     _r("get", T),
     _r("get", M),
-    _r("get", M, lc=True),
+    _r("body", M),
     _r("get", M, pf="main"),
     # namespace_id=None: the prefix of the full title alone selects the namespace
     dict(_r("exists", K), nn=1),
-    dict(_r("exists", K, pf="lower", us=True), nn=1),      # result undetermined; existence == lookup is not
+    dict(_r("exists", K, pf="lower", us=True), nn=1),
     dict(_r("get", K, us=True), nn=1),
     dict(_r("body", K), nn=1),
     dict(_r("resolve", K), nn=1),
@@ -930,8 +975,10 @@ def gen_history(rng):
         ns, b = rng.choice(nss), rng.choice(bases)
         r = rng.random()
         if r < 0.24:
-            op = {"o": "add", "ns": ns, "b": b, "pf": ("canon" if rng.random() < 0.7 else "bare") if ns else
-                  ("canon" if rng.random() < 0.6 else "main")}
+            pr = rng.random()
+            op = {"o": "add", "ns": ns, "b": b, "pf": ("canon" if pr < 0.6 else "bare" if pr < 0.82 else
+                                                      rng.choice([p for p in pf_choices(ns) if p not in ("canon", "omit")]))
+                  if ns else ("canon" if pr < 0.6 else "main")}
             if " " in b and rng.random() < p_us:
                 op["us"] = True
             if ns not in (10,) and rng.random() < (0.6 if ns == 4 else 0.1):
@@ -945,6 +992,11 @@ def gen_history(rng):
                   rng.choice(["canon", "canon", "us", "main"])}
             if rng.random() < 0.3:
                 op["rb"] = True
+            if rng.random() < 0.22:
+                # the target is a page of another (non-main) namespace, named by its full canonical title
+                others = [n for n in nss if n and n != ns] or [n for n in NSS if n and n != ns]
+                op["tns"] = rng.choice(others)
+                op["tf"] = rng.choice(["canon", "canon", "us"])
         elif r < 0.36:
             op = {"o": "commit"}
         elif r < 0.385:
@@ -977,6 +1029,7 @@ class Monitor:
         self.lab = Lab(self.store)
         self.nhist = 0
         self.sigcache = {}
+        self.pre = {}
         self.hits0 = memo_hits(self.store.ctx)
 
     def close(self):
@@ -1031,9 +1084,38 @@ class Monitor:
                 if n >= 3:
                     obs.violation(sig, fmt(executed, mm, sfx), {"ops": executed[:mm["i"] + 3], "nomemo": False, "at": mm["i"]})
                     continue
+            # a class (read form x stored forms in play x kind of disagreement) that was minimised to the same
+            # signature twice is counted under it without minimising again
+            pk = self.prekey(executed, mm)
+            known = self.pre.get(pk)
+            if known is not None and known[0] is not None and known[1] >= 2:
+                obs.count("attributed-without-minimising")
+                ops2 = strip_dx(executed[:mm["i"] + 1])
+                obs.violation(known[0], fmt(executed, mm, sfx), {"ops": ops2, "nomemo": True, "at": len(ops2) - 1})
+                continue
             obs.count("diagnosed")
             sig, case = diagnose(self.lab, executed, mm)
+            if known is None:
+                self.pre[pk] = [sig, 1]
+            elif known[0] == sig:
+                known[1] += 1
+            else:
+                known[0] = None          # not one class after all: always minimise
             obs.violation(sig, describe(self.lab, case) or fmt(executed, mm, sfx), case)
+
+    @staticmethod
+    def prekey(executed, mm):
+        op = executed[mm["i"]]
+        feats = set()
+        if "b" in op:
+            stem = op["b"].lower()
+            for o in executed[:mm["i"]]:
+                if o["o"] in ("add", "redir") and (o["b"].lower() == stem or o.get("tb", "").lower() == stem):
+                    pf = o.get("pf", "canon")
+                    feats.add((o["o"], pf if pf in ("canon", "bare", "main") else "other", bool(o.get("us")),
+                               "tns" in o, o.get("tf", ""), o["ns"] == op["ns"], o["b"] == op["b"]))
+        return (op["o"], spn(op) if "sp" in op else None, op.get("ns", -1) == 0, ":" in op.get("b", ""),
+                tuple(mm["fields"]), bool(mm.get("rel")), bool(mm.get("cured")), bool(mm.get("raises")), frozenset(feats))
 
 
 def run_shard(spec):
